@@ -312,5 +312,5 @@ def iteration_table(body, loop, counters):
             else:
                 delta[role] = None
         calls = [(e[1], e[2]) for e in pe.events if e[0] == 'call']
-        rows.append({'variants': pe.variants, 'atoms': pe.atoms, 'delta': delta, 'calls': calls, 'path': p})
+        rows.append({'variants': pe.variants, 'atoms': pe.atoms, 'delta': delta, 'calls': calls, 'path': p, 'env': dict(pe.env)})
     return rows
